@@ -79,7 +79,7 @@ def to_json(t):
         "a": [to_json(y) for y in t[A]],
         "at": list(t[AT]),
         "ix": [[s, list(vs)] for s, vs in t[IX]],
-        "bg": sorted(([to_json(e), c] for e, c in t[BG]), key=lambda p: repr(p)),
+        "bg": sorted(([to_json(e), c] for e, c in t[BG]), key=repr),
     }
 
 
